@@ -87,7 +87,23 @@ def str_ok(s):
     return low not in KEYWORDS and '"""' not in s and '\\' not in s and '$@' not in s
 
 
+# characters that are ordinary text in a DIP value (a line ends only at \n) but that str.splitlines, editors or terminals treat
+# as separators, and a few non-ASCII ones
+EXOTIC = '\x0b\x0c\x1c\x1d\x1e\x85\u2028\u2029\t\u00e9\u2192'
+
+
 def gen_str(rng):
+    r = rng.random()
+    if r < 0.05:
+        while True:
+            body = list(_rand_text(rng, BARE_ALPHA + ' ', rng.randint(2, 9)))
+            for _ in range(rng.randint(1, 2)):
+                body.insert(rng.randint(1, len(body) - 1), rng.choice(EXOTIC))
+            t = ''.join(body)
+            if rng.random() < 0.3:
+                t = t + '\n' + _rand_text(rng, BARE_ALPHA, rng.randint(1, 6))       # block text
+            if str_ok(t) and t.strip() == t:
+                return {'t': 'str', 'v': t}
     r = rng.random()
     while True:
         if r < 0.3:
@@ -537,6 +553,8 @@ class Renderer:
             self.classes.add('str-with-blank')
         if '#' in s and style != 'bare':
             self.classes.add('str-with-hash')
+        if any(c in EXOTIC for c in s):
+            self.classes.add('str-with-unusual-character')
         if style == 'sq' and "'" in s or style == 'dq' and '"' in s:
             self.classes.add('str-escaped-quote')
         if s == '':
